@@ -115,7 +115,7 @@ impl<'a> NinjaRule<'a> {
         let mut command = String::with_capacity(self.command.len());
 
         // handle "export" statements
-        let export = VarExportSpec::expand(self.export, env);
+        let export = VarExportSpec::expand(self.export, env)?;
         if let Some(export) = &export {
             for entry in export {
                 let VarExportSpec { variable, content } = entry;
